@@ -7,6 +7,7 @@ package main
 import (
 	"fmt"
 	"go/types"
+	"sort"
 
 	"golang.org/x/tools/go/ssa"
 )
@@ -103,11 +104,14 @@ func (g *Gen) restoreStable(before State) {
 	}
 	// locals of this function that live on the heap only because a nested closure reads them: nobody but
 	// this function writes them, so a callee cannot change them
+	var allocs []*ssa.Alloc
 	for v := range g.vals {
-		al, ok := v.(*ssa.Alloc)
-		if !ok || !al.Heap || al.Parent() != g.fn {
-			continue
+		if al, ok := v.(*ssa.Alloc); ok && al.Heap && al.Parent() == g.fn {
+			allocs = append(allocs, al)
 		}
+	}
+	sort.Slice(allocs, func(i, j int) bool { return g.vals[allocs[i]].S < g.vals[allocs[j]].S })
+	for _, al := range allocs {
 		st, seen := g.stableLoc[al]
 		if !seen {
 			st = addrUsesOK(al, true, 0)
